@@ -16,7 +16,8 @@ for every other datagram the hook logs its invocation and returns None):
   mutate; rlv additionally true_first (truthy for the first command only); cmd: ok (default), absent, raise_async,
   raise_sync (missing parameter -> KeyError before the coroutine exists).
 Messages: {viewer->sim, sim->viewer} x {unreliable, reliable + piggy-backed ack for a packet the proxy injected} x
-{ordinary chat, ChatFromViewer on channel 524, RLV ChatFromSimulator with 1 and 2 commands, CloseCircuit}.
+{ordinary chat, ChatFromViewer on channel 524, RLV ChatFromSimulator with 1 and 2 commands, CloseCircuit, valid header +
+unparseable body}.
 Fault bound: every single non-default assignment (full behaviour list), every pair of slots (representative list), and
 (thorough) every triple with one slot per addon (reduced list).  After the message under test a probe datagram is sent in
 each direction.  Separately: every sequence of length <= 4 over {take, send, drop, queue, sendcopy} on one message on a
@@ -48,6 +49,12 @@ whether the message is claimed; the wire is observed through the taps.
   rlv-partial-claim             [flagged as "unsure" in the report] a chat message with two RLV commands of which an addon
                                 handled only one is still dropped
   finalized-resend-raises / finalized-redrop-raises / send-queued-raises / emission-count (state machine)
+  truncated-forwarded-verbatim  messages with a valid header and an unparseable body (AgentThrottle / SimStats cut by two bytes):
+                                whatever hooks do short of claiming or mutating, forwarded once, byte for byte
+  predicate-raise-stops-later-subscribers  [flagged] a raising subscription predicate must be that subscription's failure only
+Subscribers: addons 0 and 1 subscribe by message name, addon 2 to "*"; addon 1's subscriptions always carry a predicate;
+behaviours pred_false / pred_raise make the slot's predicate return False / raise for the message under test; behaviour
+touch reads message.blocks (raises naturally on the unparseable message).
 Soundness (DESIGN §C07): "failure" = a hook raising.  Ownership combinations that are legal one by one but make the proxy's
 own ``drop_message`` raise RuntimeError (subscriber take() + hook drop; take() on a command-channel message) are predicted
 by the model, checked for the wire clauses and the probes only, and reported as counters
@@ -73,33 +80,39 @@ OUT, IN = "out", "in"
 RET = {"none": None, "false": False, "zero": 0, "empty": "", "true": True}
 RAISES = ("exc", "valueerror", "custom")
 OWN = ("take", "drop", "send", "sendcopy", "mutate")
+PRED = ("pred_false", "pred_raise")      # subscriber slots only: the subscription carries a predicate that returns False / raises
+SUB_NAMES = ("ChatFromViewer", "ChatFromSimulator", "CloseCircuit", "AgentThrottle", "SimStats")
 TRUTHY = ("true", "obj")
 
 BEH_ALL = {
     "pp": ["absent", "false", "zero", "empty", "true", "obj", "exc", "valueerror", "custom"],
-    "ss": ["absent", "false", "zero", "empty", "true", "obj", "exc", "valueerror", "custom", *OWN],
+    "ss": ["absent", "false", "zero", "empty", "true", "obj", "exc", "valueerror", "custom", *OWN, "touch", *PRED],
+    "lu": ["absent", "false", "zero", "empty", "true", "obj", "exc", "valueerror", "custom", *OWN, "touch"],
     "rlv": ["absent", "false", "zero", "empty", "true", "obj", "true_first", "exc", "valueerror", "custom"],
     "cmd": ["absent", "raise_async", "raise_sync"],
 }
-BEH_ALL["rs"] = BEH_ALL["lu"] = BEH_ALL["ss"]
+BEH_ALL["rs"] = BEH_ALL["ss"]
 BEH_REP = {
-    "pp": ["absent", "false", "true", "valueerror", "custom"],
-    "ss": ["absent", "false", "true", "valueerror", "custom", *OWN],
+    "pp": ["absent", "true", "valueerror"],
+    "ss": ["absent", "true", "valueerror", "take", "drop", "send", "sendcopy", "touch", *PRED],
+    "lu": ["absent", "true", "valueerror", "take", "drop", "send", "sendcopy", "touch"],
     "rlv": ["absent", "true", "true_first", "valueerror"],
     "cmd": ["absent", "raise_async", "raise_sync"],
 }
-BEH_REP["rs"] = BEH_REP["lu"] = BEH_REP["ss"]
+BEH_REP["rs"] = BEH_REP["ss"]
 BEH_TRI = {
     "pp": ["true", "valueerror"],
-    "ss": ["true", "valueerror", "take", "drop", "send", "sendcopy"],
+    "ss": ["true", "valueerror", "take", "drop", "send", "sendcopy", "pred_raise"],
+    "lu": ["true", "valueerror", "take", "drop", "send", "sendcopy"],
     "rlv": ["true", "true_first", "valueerror"],
     "cmd": ["raise_async", "raise_sync"],
 }
-BEH_TRI["rs"] = BEH_TRI["lu"] = BEH_TRI["ss"]
+BEH_TRI["rs"] = BEH_TRI["ss"]
 
 MESSAGES = [(kind, d, rel)
             for kind, d in (("ordinary", OUT), ("command", OUT), ("close", OUT),
-                            ("ordinary", IN), ("rlv1", IN), ("rlv2", IN), ("close", IN))
+                            ("ordinary", IN), ("rlv1", IN), ("rlv2", IN), ("close", IN),
+                            ("trunc", OUT), ("trunc", IN))
             for rel in (0, 1)]
 
 
@@ -162,9 +175,34 @@ def act(ctl: Ctl, slot, message=None, rlv_cmd=None):
         circuit.send(message.take())
     elif b == "mutate":
         _mutate(message)
+    elif b == "touch":
+        _ = message.blocks          # what msg["Block"] does first: parse the body (raises for an unparseable one)
+    elif b in PRED:
+        raise AssertionError("handler invoked although its predicate said no")
     else:
         raise AssertionError(b)
     return None
+
+
+def predicate_for(ctl: Ctl, slot):
+    def predicate(message):
+        if ctl.phase != "M":
+            return True
+        b = ctl.cfg.get(slot, "none")
+        if b == "pred_false":
+            return False
+        if b == "pred_raise":
+            raise ValueError("addon predicate failure")
+        return True
+    return predicate
+
+
+def m_name(kind: str, d: str) -> str:
+    if kind == "close":
+        return "CloseCircuit"
+    if kind == "trunc":
+        return "AgentThrottle" if d == OUT else "SimStats"
+    return "ChatFromViewer" if d == OUT else "ChatFromSimulator"
 
 
 class Addon:
@@ -203,6 +241,14 @@ class RecLogger:
 def _msg(kind: str, d: str, pid: int, flags: int, acks, cmd_arg: bool = True) -> bytes:
     a = U.session_uuid(0, 2)
     direction = Direction.OUT if d == OUT else Direction.IN
+    if kind == "trunc":
+        # valid header, valid trailing acks, body cut short by two bytes: never parseable, forwardable verbatim
+        g = _gen()
+        case = dict(next(iter(g.value_rows(m_name(kind, d)))))
+        case.update(flags=flags, packet_id=pid, acks=tuple(acks), extra=b"")
+        whole = U.serialize(g.lib_message(case))
+        tr = (4 * len(acks) + 1) if (flags & 0x10) else 0
+        return whole[:len(whole) - tr - 2] + whole[len(whole) - tr:]
     if kind == "close":
         m = Message("CloseCircuit", packet_id=pid, flags=flags, acks=acks, direction=direction)
     elif d == OUT:
@@ -215,6 +261,17 @@ def _msg(kind: str, d: str, pid: int, flags: int, acks, cmd_arg: bool = True) ->
                     Block("ChatData", FromName="Obj", SourceID=a, OwnerID=a, SourceType=2, ChatType=8, Audible=1,
                           Position=(1.0, 2.0, 3.0), Message=text), packet_id=pid, flags=flags, acks=acks, direction=direction)
     return U.serialize(m)
+
+
+_GEN = None
+
+
+def _gen():
+    global _GEN
+    if _GEN is None:
+        from hmc import msggen
+        _GEN = msggen.Gen(0)
+    return _GEN
 
 
 def _first_repo_frame(exc) -> str:
@@ -242,10 +299,12 @@ class Pred:
         self.raised = False         # some invoked hook raised
         self.hook_sent = False
         self.rlv_handled: List[bool] = []
+        self.pred_raised = False
         self.unsub: List[Tuple[str, int]] = []
 
 
-def predict(cfg: Dict[Tuple[str, int], str], kind: str, rlv_per_command_drop: bool = False) -> Pred:
+def predict(cfg: Dict[Tuple[str, int], str], kind: str, rlv_per_command_drop: bool = False,
+            pred_raise_aborts_level: bool = False) -> Pred:
     """Reference semantics.  RLV: the chat message is dropped (once) iff *every* command in it was handled by an addon --
     what the comment in AddonManager.handle_lludp_message promises.  ``rlv_per_command_drop=True`` models what the tree
     does at the time of writing (drop_message per handled command), used only to give that defect one specific clause."""
@@ -253,6 +312,10 @@ def predict(cfg: Dict[Tuple[str, int], str], kind: str, rlv_per_command_drop: bo
 
     def beh(slot):
         return cfg.get(slot, "ok" if slot[0] == "cmd" else "none")
+
+    def fails(b) -> bool:
+        """The hook raises on its own: explicit raise, or touching the body of the unparseable message."""
+        return b in RAISES or (b == "touch" and kind == "trunc")
 
     def own(b):
         """Ownership op by a hook; an illegal one raises RuntimeError inside the hook (swallowed like any hook failure)."""
@@ -287,13 +350,24 @@ def predict(cfg: Dict[Tuple[str, int], str], kind: str, rlv_per_command_drop: bo
             return p
     p.acks = True
     # 2. session subscribers, then region subscribers: every one is notified whatever the others do
+    # A predicate is addon code too: one that raises is a failure of that one subscription (reference semantics).
+    # ``pred_raise_aborts_level=True`` models Event.notify calling predicates outside its try: the exception leaves
+    # MessageHandler.handle, i.e. every later subscriber of the same handler (same name, then "*") is skipped.
     for hp in ("ss", "rs"):
+        aborted = False
         for k in range(3):
             b = beh((hp, k))
-            if b == "absent":
+            if b == "absent" or aborted:
+                continue
+            if b == "pred_false":
+                continue
+            if b == "pred_raise":
+                p.raised = True
+                p.pred_raised = True
+                aborted = pred_raise_aborts_level
                 continue
             p.log.append((hp, k))
-            if b in RAISES:
+            if fails(b):
                 p.raised = True
             elif b in TRUTHY:
                 p.unsub.append((hp, k))   # a truthy return from a subscriber means "unsubscribe me", not a claim
@@ -306,7 +380,7 @@ def predict(cfg: Dict[Tuple[str, int], str], kind: str, rlv_per_command_drop: bo
             if b == "absent":
                 continue
             p.log.append(("lu", k))
-            if b in RAISES:
+            if fails(b):
                 p.raised = True
             elif b in TRUTHY:
                 return True
@@ -374,13 +448,15 @@ def predict(cfg: Dict[Tuple[str, int], str], kind: str, rlv_per_command_drop: bo
     return p
 
 
-def predict_probe(cfg, pm: Pred) -> List[tuple]:
+def predict_probe(cfg, pm: Pred, same_name: bool) -> List[tuple]:
+    """Addons 0 and 1 subscribe by message name, addon 2 to "*": a truthy return on the message under test unsubscribes
+    from that one Event only."""
     log = []
     for hp in ("pp", "ss", "rs", "lu"):
         for k in range(3):
             if cfg.get((hp, k), "none") == "absent":
                 continue
-            if (hp, k) in pm.unsub:
+            if (hp, k) in pm.unsub and (k == 2 or same_name):
                 continue
             log.append((hp, k))
     return log
@@ -403,12 +479,17 @@ def execute(msg, assign) -> Tuple[List[Dict[str, str]], Dict[str, Any]]:
     region = w.region(0, 0)
     ctl.region = region
     s.main_region = region
-    for k in range(3):  # subscription order = addon order
-        if cfg.get(("ss", k)) != "absent":
-            s.message_handler.subscribe("*", (lambda kk: lambda message: act(ctl, ("ss", kk), message))(k))
-    for k in range(3):
-        if cfg.get(("rs", k)) != "absent":
-            region.message_handler.subscribe("*", (lambda kk: lambda message: act(ctl, ("rs", kk), message))(k))
+    # Addons 0 and 1 subscribe by message name, addon 2 to "*" (dispatch order stays 0, 1, 2).  Addon 1's subscriptions
+    # always carry a predicate (returning True unless the slot says otherwise); the others only for predicate behaviours.
+    for hp, handler in (("ss", s.message_handler), ("rs", region.message_handler)):
+        for k in range(3):
+            b = cfg.get((hp, k))
+            if b == "absent":
+                continue
+            fn = (lambda hh, kk: lambda message: act(ctl, (hh, kk), message))(hp, k)
+            pred = predicate_for(ctl, (hp, k)) if (k == 1 or b in PRED) else None
+            for nm in (("*",) if k == 2 else SUB_NAMES):
+                handler.register(nm).subscribe(fn, predicate=pred)
     # taps
     proto = w.protos[0]
     real_deser = proto.deserializer.deserialize
@@ -427,8 +508,10 @@ def execute(msg, assign) -> Tuple[List[Dict[str, str]], Dict[str, Any]]:
             return real_send(message, transport)
         finally:
             ctl.emissions.append((ctl.phase, message, len(w.sends) - n0))
+            wire.append((message, [x[1] for x in w.sends[n0:]]))
     circuit._send_prepared_message = send_tap
     base_sends = len(w.sends)
+    wire: List[Tuple[Any, List[bytes]]] = []
 
     # the proxy's own reliable packet in the opposite direction, acknowledged by the message under test
     fut = None
@@ -467,7 +550,16 @@ def execute(msg, assign) -> Tuple[List[Dict[str, str]], Dict[str, Any]]:
     _, exc = w.deliver(0, data, src)
     origs = [m for ph, m in ctl.msgs if ph == "M"]
     orig = origs[0] if origs else None
+    verbatim = None
+    if kind == "trunc" and not rel and "mutate" not in cfg.values():
+        lludp_in = data[10:] if d == OUT else data
+        outs = [b for m, bl in wire if m is orig for b in bl]
+        if d == IN:
+            outs = [(U.socks_unwrap(b) or (None, b))[1] for b in outs]
+        verbatim = all(b == lludp_in for b in outs)
     obs: Dict[str, Any] = {
+        "verbatim": verbatim,
+        "m_name": m_name(kind, d),
         "exc": exc,
         "n_orig": sum(n for ph, m, n in ctl.emissions if m is orig) if orig is not None else 0,
         "log_m": [e[1:] for e in ctl.log if e[0] == "M" and e[1] != "cmd"],
@@ -499,6 +591,14 @@ def execute(msg, assign) -> Tuple[List[Dict[str, str]], Dict[str, Any]]:
         raise RuntimeError(f"C07 taps: {len(w.sends) - base_sends} sendto but {total} attributed to messages")
 
     viols, info = judge(cfg, kind, predict(cfg, kind), obs, tag)
+    if viols and "pred_raise" in cfg.values():
+        # Does the observation match "a raising predicate aborts the rest of that handler's dispatch" instead?  Then it is
+        # that one defect (flagged in the report): other addons' subscribers at the same level were skipped.
+        viols_now, info_now = judge(cfg, kind, predict(cfg, kind, pred_raise_aborts_level=True), obs, tag)
+        if not viols_now:
+            return [{"clause": "predicate-raise-stops-later-subscribers", "site": "Event.notify:predicate",
+                     "detail": f"a subscriber's predicate raised; hook log {obs['log_m']} lacks later subscribers of the same "
+                               f"MessageHandler that the reference dispatch {predict(cfg, kind).log} notifies"}], info_now
     if viols and kind in ("rlv1", "rlv2"):
         # Does the observation match "drop_message per handled RLV command" instead?  Then report that one defect under
         # its own clause/site (or, if the statement is not violated at all, count it) rather than as a dozen symptoms.
@@ -533,7 +633,8 @@ def judge(cfg, kind: str, pm: Pred, obs: Dict[str, Any], tag: str) -> Tuple[List
     if pm.claimed and n_orig != pm.emitted:
         bad("claim-respected", f"claimed message: model expects {pm.emitted} emission(s) of the original, observed {n_orig}")
     if exc is not None:
-        if pm.escape and isinstance(exc, RuntimeError):
+        # (for the unparseable message the proxy's RuntimeError text reprs the message, so a parse error comes out instead)
+        if pm.escape and (isinstance(exc, RuntimeError) or kind == "trunc"):
             info["rejected"] = pm.escape
         else:
             bad("exception-escaped", f"{exc!r} escaped datagram_received (model predicted {pm.escape!r})",
@@ -554,9 +655,11 @@ def judge(cfg, kind: str, pm: Pred, obs: Dict[str, Any], tag: str) -> Tuple[List
             bad("bookkeeping-acks", f"piggy-backed ack {obs['acks']} for the proxy's own reliable packet was not collected (a hook raised: {pm.raised})")
         if kind == "close" and pm.dead and obs["alive"]:
             bad("bookkeeping-region-death", f"CloseCircuit not claimed by any hook but the region is still alive (a hook raised: {pm.raised})")
-    exp_probe = predict_probe(cfg, pm) if quiet else None
+    if obs["verbatim"] is False:
+        bad("truncated-forwarded-verbatim", "a datagram with an unparseable body that no hook changed was not forwarded byte for byte")
     for pr in obs["probes"]:
         pd = pr["dir"]
+        exp_probe = predict_probe(cfg, pm, obs["m_name"] == ("ChatFromViewer" if pd == OUT else "ChatFromSimulator")) if quiet else None
         if pr["n_orig"] != 1 or pr["exc"] is not None or pr["to_peer"] < 1:
             bad("next-datagram-forwarded", f"probe {pd} after the message: emitted {pr['n_orig']} times, sends={pr['sends']}, exception={pr['exc']!r}")
         if exp_probe is not None and pr["log"] != exp_probe:
@@ -956,7 +1059,7 @@ def run(run: Run):
         "a truthy return from a MessageHandler subscriber means 'unsubscribe me' (library contract), not a claim",
         "ownership combinations the proxy itself rejects with RuntimeError are checked for the wire clauses and probes only and counted (DESIGN soundness note)",
         "BaseException subclasses outside Exception (KeyboardInterrupt/SystemExit-like) are not raised by hooks",
-        "pairs use the representative behaviour list (false stands for 0/'', valueerror+custom for exc), triples the reduced list; singles use the full list",
+        "pairs use the representative behaviour list (valueerror stands for every raise; falsy returns and mutate only in singles), triples the reduced list; singles use the full list",
         "in the hook enumeration async subscribers are represented by the sync subscriber behaviour 'take' (what their wrappers do); the "
         "subscription life cycle itself (subscribe_async left normally / by exception / by cancellation, wait_for satisfied / timed out / "
         "cancelled) is enumerated separately on the virtual loop (async family)",
